@@ -3,7 +3,9 @@
 /verif/refactors/<id>/patch.diff (each applied in a scratch worktree of /repo; the repository's tests
 must pass; every check must stay silent).
 
-usage: run_refactors.py [--thorough] [--only <id> ...] [--checks Cnn ...]"""
+usage: run_refactors.py [--thorough] [--only <id> ...] [--checks Cnn ...]
+VERIF_REFACTOR_DIR=benign selects /verif/benign/ (changes that alter behaviour no property speaks about);
+VERIF_RUN_TAG names the result file."""
 import json
 import os
 import shutil
@@ -45,7 +47,7 @@ def main(argv):
     props = [json.loads(l)["id"] for l in open(os.path.join(VERIF, "properties.jsonl"))]
     if "--checks" in argv:
         props = [a for a in argv[argv.index("--checks") + 1:] if a.startswith("C")]
-    root = os.path.join(VERIF, "refactors")
+    root = os.path.join(VERIF, os.environ.get("VERIF_REFACTOR_DIR", "refactors"))
     ids = sorted(d for d in os.listdir(root) if os.path.isdir(os.path.join(root, d)))
     if only:
         ids = [i for i in ids if i in only]
@@ -83,7 +85,7 @@ def main(argv):
         print(rid, json.dumps(res), flush=True)
     bad = [r for r, v in results.items() if v.get("alarms") or v.get("tests") != "pass"]
     print(f"\n{len(results) - len(bad)}/{len(results)} refactorings: tests pass and all checks silent; needs a look: {bad}")
-    json.dump(results, open(os.path.join(HERE, f"last_refactors_{tier}.json"), "w"), indent=1)
+    json.dump(results, open(os.path.join(HERE, f"last_refactors_{tier}{os.environ.get('VERIF_RUN_TAG', '')}.json"), "w"), indent=1)
 
 
 if __name__ == "__main__":
